@@ -53,7 +53,7 @@ Lemma gen_unlocked_writes_integrator :
   unlocked_writes integ_epilogue = [] /\
   dedup (concat (map unlocked_writes integ_loop_heads)) =
     ["reb_simulation_error_message_waiting"; "field:status"; "reb_simulation_warning"] /\
-  unlocked_writes integ_prologue = ["field:dt"; "field:dt_last_done"; "reb_particle_check_testparticles"; "field:status"; "reb_run_heartbeat"].
+  unlocked_writes integ_prologue = [].
 Proof. vm_compute. repeat split. Qed.
 
 (* in particular reb_simulation_synchronize and the particle arrays are never written outside the mutex any more; of the
@@ -88,12 +88,14 @@ Proof.
 Qed.
 
 (* ... and that is all: a serialisation can overlap a simulation write of the integrator thread only while that thread is in
-   the prologue (block 0: dt, dt_last_done, status, warning, first heartbeat) or in an unlocked part of reb_check_exit (blocks >= 3:
-   status, message buffer); never in the loop body (block 1) nor in the block after the loop (block 2) *)
+   an unlocked part of reb_check_exit (blocks >= 3: status, message buffer); never in the prologue (block 0, inside the mutex since
+   /repo 7d68a7a), the loop body (block 1) nor the block after the loop (block 2) *)
 Definition writes_locked (b : list act) : bool :=
   forallb (fun n => match run false b n a0 with Some a => implb (aw a) (ah a) | None => true end) (seq 0 (S (length b))).
 Lemma gen_body_epilogue_writes_locked : writes_locked integ_loop_body = true /\ writes_locked integ_epilogue = true.
 Proof. vm_compute. split; reflexivity. Qed.
+Lemma gen_prologue_writes_locked : writes_locked integ_prologue = true.
+Proof. vm_compute. reflexivity. Qed.
 
 Lemma writes_locked_at : forall b n a, writes_locked b = true -> run false b n a0 = Some a -> aw a = true -> ah a = true.
 Proof.
@@ -103,8 +105,8 @@ Proof.
   specialize (W n Hin). rewrite R in W. rewrite Hw in W. cbn in W. exact W.
 Qed.
 
-Lemma gen_overlap_only_prologue_or_check_exit : forall s, reach gen_system s ->
-  gz (tS s) = true -> integ_writing s = true -> pcb (tI s) <> 1 /\ pcb (tI s) <> 2.
+Lemma gen_overlap_only_check_exit : forall s, reach gen_system s ->
+  gz (tS s) = true -> integ_writing s = true -> 3 <= pcb (tI s).
 Proof.
   intros s R Hz Hw.
   pose proof (gen_serializer_holds_mutex s R Hz) as Hh.
@@ -113,9 +115,11 @@ Proof.
   assert (Hah : ah a = false).
   { destruct (ah a) eqn:E; [|reflexivity]. destruct FH as [FH _]. specialize (FH eq_refl). rewrite Hh in FH. discriminate. }
   assert (Haw : aw a = true) by (rewrite F2; exact Hw).
-  destruct gen_body_epilogue_writes_locked as [WB WE].
+  destruct gen_body_epilogue_writes_locked as [WB WE]. pose proof gen_prologue_writes_locked as WP.
   unfold cur_block in Ra.
-  split; intro Hp; rewrite Hp in Ra.
+  destruct (pcb (tI s)) as [|[|[|k]]]; [exfalso | exfalso | exfalso | lia].
+  - change (nth 0 (blocks (gen_system true)) []) with integ_prologue in Ra.
+    rewrite (writes_locked_at _ _ _ WP Ra Haw) in Hah. discriminate.
   - change (nth 1 (blocks (gen_system true)) []) with integ_loop_body in Ra.
     rewrite (writes_locked_at _ _ _ WB Ra Haw) in Hah. discriminate.
   - change (nth 2 (blocks (gen_system true)) []) with integ_epilogue in Ra.
@@ -153,65 +157,70 @@ Definition core_system (pro : list act) : bool -> prog :=
   system (relabel pro) (map relabel integ_loop_heads) (relabel integ_loop_body) (relabel integ_epilogue)
          (map (fun h => relabel (snd h)) handlers).
 
-(* besides bookkeeping, exactly one write is still outside the mutex: the user heartbeat called once in the prologue of
-   reb_simulation_integrate *)
+(* besides bookkeeping NO write is outside the mutex any more (the prologue incl. its user heartbeat is inside since /repo 7d68a7a) *)
 Lemma gen_core_unlocked_writes :
-  unlocked_writes (relabel integ_prologue) = ["reb_run_heartbeat"] /\
+  unlocked_writes (relabel integ_prologue) = [] /\
   concat (map (fun b => unlocked_writes (relabel b)) integ_loop_heads) = [] /\
   unlocked_writes (relabel integ_loop_body) = [] /\ unlocked_writes (relabel integ_epilogue) = [] /\
   concat (map (fun h => unlocked_writes (relabel (snd h))) handlers) = [].
 Proof. vm_compute. repeat split. Qed.
 
-(* hence "a served snapshot equals a boundary state except in {status, dt sign, dt_last_done}" is false as long as the prologue
-   heartbeat may write: witness = the serialisation overlaps the prologue heartbeat *)
-Definition pos_after_label (l : string) (b : list act) : nat :=
-  (fix go (b : list act) (i : nat) := match b with
-     | [] => i
-     | AWriteBegin l' :: r => if String.eqb l l' then S i else go r (S i)
-     | _ :: r => go r (S i) end) b 0.
-Definition torn_schedule_prologue : list (bool * nat) :=
-  repeat (true, 0) (pos_after_label "reb_run_heartbeat" integ_prologue) ++
-  [(false, index_of_handler "/simulation")] ++ repeat (false, 0) (pos_after simulation_handler).
-Lemma gen_core_quiescent_refuted :
-  wf true (core_system integ_prologue) = false /\
-  exists s, reach (core_system integ_prologue) s /\ gz (tS s) = true /\ integ_writing s = true /\ pcb (tI s) = 0.
-Proof.
-  split; [vm_compute; reflexivity|].
-  destruct (runs (core_system integ_prologue) torn_schedule_prologue init) as [s|] eqn:E; [|vm_compute in E; discriminate].
-  exists s. split; [eapply runs_reach; [apply reach_init | exact E]|].
-  vm_compute in E. inversion E. vm_compute. repeat split.
-Qed.
-
-(* with the prologue inside the mutex (proposed patch /tmp/c19_prologue_mutex_patch.diff) the statement holds for ALL interleavings:
-   while a request is serialised, no step and no write other than bookkeeping is in progress *)
-Definition prologue_locked : list act := locked (strip_sync integ_prologue).
-Lemma core_patched_wf : wf true (core_system prologue_locked) = true.
+(* hence, for ALL interleavings of the generated programs: while a request is serialised no step and no write other than the
+   bookkeeping stores is in progress, i.e. a served snapshot equals a step-boundary state except possibly in
+   {status, dt sign, dt_last_done} *)
+Lemma gen_core_wf : wf true (core_system integ_prologue) = true.
 Proof. vm_compute. reflexivity. Qed.
-Lemma core_patched_quiescent : forall s, reach (core_system prologue_locked) s ->
+Lemma gen_core_quiescent : forall s, reach (core_system integ_prologue) s ->
   gz (tS s) = true -> integ_writing s = false /\ gst (tI s) = false.
-Proof. intros s R H. exact (served_quiescent_gen _ s core_patched_wf R H). Qed.
+Proof. intros s R H. exact (served_quiescent_gen _ s gen_core_wf R H). Qed.
+(* the statement is not vacuous: the unlocked prologue of /repo before 7d68a7a (= the generated one with its lock actions removed) fails it *)
+Lemma old_prologue_core_not_wf : wf true (core_system (strip_sync integ_prologue)) = false.
+Proof. vm_compute. reflexivity. Qed.
 
-(* ---------------------------------------------------------------- round 2: the other stepping entry point *)
-(* a user thread that calls reb_simulation_steps (sim.steps(n)) instead of reb_simulation_integrate *)
+(* ---------------------------------------------------------------- the other stepping entry point *)
+(* a user thread that calls reb_simulation_steps (sim.steps(n); sim.step() = reb_simulation_steps(1) since /repo b9982d0) *)
 Definition steps_system : bool -> prog :=
   fun w => if w then mkProg [steps_loop_body] (fun _ => [0]) else server_prog (map snd handlers).
-Lemma gen_steps_refuted :
-  wf false steps_system = false /\
-  exists s, reach steps_system s /\ serializing s = true /\ in_step s = true.
-Proof.
-  split; [vm_compute; reflexivity|].
-  pose (sch := ((true, 0) :: (false, index_of_handler "/simulation") :: repeat (false, 0) (pos_after simulation_handler))).
-  destruct (runs steps_system sch init) as [s|] eqn:E; [|vm_compute in E; discriminate].
-  exists s. split; [eapply runs_reach; [apply reach_init | exact E]|].
-  vm_compute in E. inversion E. vm_compute. split; reflexivity.
-Qed.
-(* with the loop body of reb_simulation_steps inside the mutex (proposed patch /tmp/c19_steps_mutex_patch.diff) the theorem holds *)
-Definition steps_system_patched : bool -> prog :=
-  fun w => if w then mkProg [locked steps_loop_body] (fun _ => [0]) else server_prog (map snd handlers).
-Lemma steps_patched_wf : wf false steps_system_patched = true.
+Lemma gen_steps_wf : wf false steps_system = true.
 Proof. vm_compute. reflexivity. Qed.
-Lemma steps_patched_at_boundary : forall s, reach steps_system_patched s -> serializing s = true -> in_step s = false.
-Proof. intros s R H. exact (served_at_boundary_gen _ s steps_patched_wf R H). Qed.
+Lemma gen_steps_at_boundary : forall s, reach steps_system s -> serializing s = true -> in_step s = false.
+Proof. intros s R H. exact (served_at_boundary_gen _ s gen_steps_wf R H). Qed.
+(* not vacuous: the lock-free loop body of /repo before b9982d0 fails the discipline *)
+Lemma old_steps_not_wf :
+  wf false (fun w => if w then mkProg [strip_sync steps_loop_body] (fun _ => [0]) else server_prog (map snd handlers)) = false.
+Proof. vm_compute. reflexivity. Qed.
+
+(* ---------------------------------------------------------------- what a REQUEST can change *)
+(* Server side: every simulation write of every handler block is `status` or the user's key_callback (called inside the mutex); no handler
+   steps the simulation.  Integrator side: inside the regions of reb_check_exit / reb_simulation_integrate_raw that are control-dependent
+   on a test of r->status against a value a request can set (pause loop, single-step countdown, keep-paused test of the prologue) the only
+   field written is `status` and the only functions called are sleeps / the mutex helpers.  So a request changes WHEN steps run, never
+   the state the steps operate on.  (allowed_request_calls is a hand-kept classification: functions that do not touch the simulation.) *)
+Definition allowed_request_calls : list string := ["usleep"; "emscripten_sleep"; "reb_server_mutex_lock"; "reb_server_mutex_unlock"].
+Definition srv_act_ok (x : act) : bool :=
+  match x with
+  | AWriteBegin l | AWriteEnd l => existsb (String.eqb l) ["field:status"; "(*key_callback)"]
+  | AStepBegin | AStepEnd => false
+  | _ => true
+  end.
+Lemma gen_request_write_set :
+  request_triggered_writes = ["field:status"] /\
+  forallb (fun c => existsb (String.eqb c) allowed_request_calls) request_triggered_calls = true /\
+  request_triggered_regions = 3 /\
+  request_guard_constants = ["REB_STATUS_PAUSED"; "REB_STATUS_RUNNING"; "REB_STATUS_SCREENSHOT"; "REB_STATUS_SINGLE_STEP"; "REB_STATUS_USER"] /\
+  forallb (forallb srv_act_ok) (blocks (gen_system false)) = true.
+Proof. vm_compute. repeat split. Qed.
+
+(* trace form: in every reachable state, whatever the server thread executes next is not a step and writes at most status / key_callback *)
+Lemma gen_server_actions_ok : forall s x, reach gen_system s ->
+  nth_error (cur_block gen_system false (tS s)) (pco (tS s)) = Some x -> srv_act_ok x = true.
+Proof.
+  intros s x _ H. destruct gen_request_write_set as [_ [_ [_ [_ W]]]].
+  rewrite forallb_forall in W. unfold cur_block in H.
+  destruct (Nat.lt_ge_cases (pcb (tS s)) (length (blocks (gen_system false)))) as [Hl|Hl].
+  - specialize (W _ (nth_In _ [] Hl)). rewrite forallb_forall in W. apply W. eapply nth_error_In. exact H.
+  - rewrite nth_overflow in H by exact Hl. destruct (pco (tS s)); discriminate.
+Qed.
 
 (* process-level hygiene of the server thread: no exit of the request loop closes a connection descriptor twice
    (fclose(fdopen(fd)) followed by close(fd) would close a descriptor that another thread may have just opened; fixed in /repo bc586ce) *)
@@ -271,17 +280,18 @@ Lemma gen_mutex_users :
    ("rebound.c", "reb_simulation_integrate_raw", "pthread_mutex_lock"); ("rebound.c", "reb_simulation_integrate_raw", "pthread_mutex_unlock");
    ("server.c", "reb_server_start", "pthread_mutex_lock"); ("server.c", "reb_server_start", "pthread_mutex_unlock");
    ("server.c", "reb_simulation_start_server", "pthread_mutex_init")] /\ mutex_functions_avx512 = mutex_functions_default /\
-  (* the helpers and reb_check_exit are called only from inside the modelled integrator program *)
+  (* the helpers and reb_check_exit are called only from inside the modelled programs (integrate_raw, reb_simulation_steps) *)
   mutex_callers =
   [("reb_check_exit", "reb_server_mutex_lock"); ("reb_check_exit", "reb_server_mutex_unlock");
    ("reb_simulation_integrate", "reb_simulation_integrate_raw"); ("reb_simulation_integrate_raw", "reb_check_exit");
-   ("reb_simulation_integrate_raw", "reb_server_mutex_lock"); ("reb_simulation_integrate_raw", "reb_server_mutex_unlock")].
+   ("reb_simulation_integrate_raw", "reb_server_mutex_lock"); ("reb_simulation_integrate_raw", "reb_server_mutex_unlock");
+   ("reb_simulation_steps", "reb_server_mutex_lock"); ("reb_simulation_steps", "reb_server_mutex_unlock")].
 Proof. vm_compute. repeat split. Qed.
 
 (* -DAVX512: per-simulation constants live in file-scope statics of integrator_whfast512.c *)
 Lemma gen_avx512_written :
   map key (written statics_avx512) =
-  [("integrator_whfast512.c", "", "_M"); ("integrator_whfast512.c", "", "five"); ("integrator_whfast512.c", "", "gr_prefac");
+  [("integrator_whfast512.c", "", "_M"); ("integrator_whfast512.c", "", "constants_owner"); ("integrator_whfast512.c", "", "five"); ("integrator_whfast512.c", "", "gr_prefac");
    ("integrator_whfast512.c", "", "gr_prefac2"); ("integrator_whfast512.c", "", "half"); ("integrator_whfast512.c", "", "invfactorial512");
    ("integrator_whfast512.c", "", "one"); ("integrator_whfast512.c", "", "sixteen"); ("integrator_whfast512.c", "", "so1");
    ("integrator_whfast512.c", "", "so2"); ("integrator_whfast512.c", "", "twenty"); ("integrator_whfast512.c", "", "two");
